@@ -465,6 +465,18 @@ fn both(a: bool, b: bool) -> bool { return a && b; }
   buf.data[2] = v.y;
 }
 """),
+("void_helper_tail_switch", HDR + """
+fn classify(k: u32) {
+  switch (k) {
+    case 0u: { buf.data[1] = 10u; }
+    default: { buf.data[1] = 20u; }
+  }
+}
+@compute @workgroup_size(1) fn main() {
+  classify(buf.data[0] & 1u);
+  buf.data[2] = 1u;
+}
+"""),
 ("dead_pointer_type_chain", HDR + """
 fn unused_fn(p: ptr<function, vec4<i32>>) -> i32 { return (*p).x; }
 @compute @workgroup_size(1) fn main() { buf.data[0] = 1u; }
